@@ -2100,23 +2100,46 @@ def c11_sockets_search(meta, seed, budget):
 
 @runner("c19:thermal")
 def c19_thermal(model, meta):
+    """sysfs mocked at glob/cat/bcat level with the layout of the contract's configuration; values from the
+    counter-model (defaults otherwise)"""
     from psutil import _pslinux
     import glob as _glob
+    lay = model.get("layout", cfg_of(meta).get("layout", "thermal"))
+    HW = "/sys/class/hwmon"
     tz = "/sys/class/thermal/thermal_zone0"
-    t = int(model.get("tz_temp", 50000))
-    c = int(model.get("tz_crit", 100000))
-    h = int(model.get("tz_high", 90000))
-    files = {tz + "/temp": str(t), tz + "/type": "x86_pkg_temp\n", tz + "/trip_point_0_type": "critical\n",
-             tz + "/trip_point_0_temp": str(c), tz + "/trip_point_1_type": "high\n", tz + "/trip_point_1_temp": str(h)}
+    v = {"a": int(model.get("a_input", 41000)), "a_max": int(model.get("a_max", 95000)), "b": int(model.get("b_input", 37850)),
+         "tz": int(model.get("tz_temp", 50000)), "tz_crit": int(model.get("tz_crit", 100000)),
+         "tz_high": int(model.get("tz_high", 90000))}
+    files, globs = {}, {"/sys/devices/platform/coretemp.*/hwmon/hwmon*/temp*_*": []}
+    unreadable = set()
+    flat, nested = f"{HW}/hwmon0/temp1", f"{HW}/hwmon1/device/temp1"
+    g_flat, g_nested = f"{HW}/hwmon*/temp*_*", f"{HW}/hwmon*/device/temp*_*"
+    globs[g_flat], globs[g_nested] = [], []
+    if lay in ("flat", "mixed", "flat_unreadable"):
+        files[flat + "_input"] = str(v["a"])
+        files[flat + "_max"] = str(v["a_max"])
+        files[f"{HW}/hwmon0/name"] = "acpitz\n"
+        if lay == "flat_unreadable":
+            unreadable.add(flat + "_input")
+        globs[g_flat] = [flat + "_input", flat + "_max"]
+    if lay in ("nested", "mixed"):
+        files[nested + "_input"] = str(v["b"])
+        files[f"{HW}/hwmon1/device/name"] = "nvme\n"
+        globs[g_nested] = [nested + "_input"]
+    globs["/sys/class/thermal/thermal_zone*"] = []
+    if lay == "thermal":
+        globs["/sys/class/thermal/thermal_zone*"] = [tz]
+        files.update({tz + "/temp": str(v["tz"]), tz + "/type": "x86_pkg_temp\n", tz + "/trip_point_0_type": "critical\n",
+                      tz + "/trip_point_0_temp": str(v["tz_crit"]), tz + "/trip_point_1_type": "high\n",
+                      tz + "/trip_point_1_temp": str(v["tz_high"])})
+        globs[tz + "/trip_point*"] = [k for k in files if "trip_point" in k]
 
     def fake_glob(pat):
-        if pat == "/sys/class/thermal/thermal_zone*":
-            return [tz]
-        if pat == tz + "/trip_point*":
-            return [k for k in files if "trip_point" in k]
-        return []
+        return list(globs.get(pat, []))
 
     def fake_cat(path, fallback=_pslinux._common._DEFAULT, **kw):
+        if path in unreadable:
+            raise OSError(5, "Input/output error")
         if path in files:
             return files[path]
         if fallback is not _pslinux._common._DEFAULT:
@@ -2133,15 +2156,160 @@ def c19_thermal(model, meta):
             res, exc = _pslinux.sensors_temperatures(), None
         except Exception as e:  # noqa: BLE001
             res, exc = None, e
-    want = {"x86_pkg_temp": [("", t / 1000.0, h / 1000.0, c / 1000.0)]}
-    bad = exc is not None or {k: [tuple(x) for x in v] for k, v in res.items()} != want
-    return {"env": {}, "result": res, "exc": exc, "verdict": bad, "expected": want}
+    want = {}
+    if lay in ("flat", "mixed"):
+        want["acpitz"] = [("", v["a"] / 1000.0, v["a_max"] / 1000.0, None)]
+    if lay in ("nested", "mixed"):
+        want["nvme"] = [("", v["b"] / 1000.0, None, None)]
+    if lay == "thermal":
+        want["x86_pkg_temp"] = [("", v["tz"] / 1000.0, v["tz_high"] / 1000.0, v["tz_crit"] / 1000.0)]
+    bad = exc is not None or {k: [tuple(x) for x in vv] for k, vv in res.items()} != want
+    return {"env": dict(v, lay=lay), "result": res, "exc": exc, "verdict": bad, "expected": want}
 
 
 @search("c19:thermal")
 def c19_thermal_search(meta, seed, budget):
     yield {"tz_temp": 50000, "tz_crit": 100000, "tz_high": 90000}
     yield {"tz_temp": 1, "tz_crit": 2000, "tz_high": 1000}
+    for lay in ("flat", "nested", "mixed", "flat_unreadable", "none", "thermal"):
+        yield {"layout": lay, "a_input": 41000, "a_max": 95000, "b_input": 37850}
 
 
 from replay import runners_c  # noqa: E402,F401  (C-level runners: C17, C18)
+
+
+# ---------------------------------------------------------------------------
+# C07: Process.cpu_percent with the timer, the CPU count, sleep and the platform cpu_times() replaced
+# ---------------------------------------------------------------------------
+
+@runner("c07:proc_cpu_percent")
+def c07_proc_cpu_percent(model, meta):
+    import time as _time
+    import psutil
+    cfgs = cfg_of(meta)
+    n = int(model.get("ncpu", cfgs.get("ncpu", 4)))
+    first = str(model.get("first", cfgs.get("first", False))) == "True"
+    mode = model.get("mode", cfgs.get("mode", "block"))
+    T1 = float(num(model.get("T1", 10.0)))
+    T2a = float(num(model.get("T2a", max(T1, 12.0))))
+    T2b = float(num(model.get("T2b", max(T2a, 13.0))))
+    nt = collections.namedtuple("pcputimes", ["user", "system", "children_user", "children_system", "iowait"])
+    pt_old = nt(*model.get("pt_old", (1.0, 0.5, 0.0, 0.0, 0.0)))
+    pa = nt(*model.get("pa", (1.6, 0.7, 0.0, 0.0, 0.0)))
+    pb = nt(*model.get("pb", (2.0, 0.9, 0.0, 0.0, 0.0)))
+    p = psutil.Process()
+    reads = {"timer": 0, "cpu": 0}
+    scale = n or 1
+
+    def timer():
+        reads["timer"] += 1
+        return T2a if reads["timer"] == 1 else T2b
+
+    def cpu_times():
+        reads["cpu"] += 1
+        return pa if reads["cpu"] == 1 else pb
+
+    if not first:
+        p._last_sys_cpu_times = T1 * scale
+        p._last_proc_cpu_times = pt_old
+    interval = {"none": None, "zero": 0.0, "neg": -1.0}.get(mode, 0.25)
+    with mock.patch.object(psutil, "_timer", timer), mock.patch.object(psutil, "cpu_count", lambda *a, **k: (n or None)), \
+            mock.patch.object(_time, "sleep", lambda d: None), \
+            mock.patch.object(type(p._proc), "cpu_times", lambda self_: cpu_times()):
+        try:
+            res, exc = p.cpu_percent(interval), None
+        except Exception as e:  # noqa: BLE001
+            res, exc = None, e
+    env = {"self": p, "interval": interval, "T1": T1, "T2a": T2a, "T2b": T2b, "pt_old": pt_old, "pa": pa, "pb": pb,
+           "n": scale, "first": first, "mode": mode}
+    return {"env": env, "result": res, "exc": exc}
+
+
+@search("c07:proc_cpu_percent")
+def c07_proc_cpu_percent_search(meta, seed, budget):
+    import random
+    rng = random.Random(seed)
+    for first in (True, False):
+        for mode in ("none", "zero", "block"):
+            for n in (1, 4, 0):
+                yield {"ncpu": n, "first": first, "mode": mode}
+    k = 0
+    while k < budget:
+        k += 1
+        t1 = rng.uniform(0, 100)
+        a = t1 + rng.choice([0, 0.001, 1, 7])
+        b = a + rng.choice([0, 0.5, 3])
+        u = sorted(rng.uniform(0, 50) for _ in range(3))
+        s = sorted(rng.uniform(0, 50) for _ in range(3))
+        yield {"ncpu": rng.choice([1, 2, 16, 0]), "first": rng.random() < .3, "mode": rng.choice(["none", "zero", "block"]),
+               "T1": t1, "T2a": a, "T2b": b, "pt_old": (u[0], s[0], 0, 0, 0), "pa": (u[1], s[1], 0, 0, 0), "pb": (u[2], s[2], 0, 0, 0)}
+
+
+# ---------------------------------------------------------------------------
+# C16: memoize_when_activated under interference - the scheduler is a script: every attribute operation on
+# `_cache` sees the state the script says another thread left behind (the contract's volatile model, made concrete)
+# ---------------------------------------------------------------------------
+
+@runner("c16:race")
+def c16_race(model, meta):
+    import psutil
+    from psutil._common import memoize_when_activated
+    script = list(model.get("script", ["holding", "absent"]))
+    outcome = model.get("outcome", cfg_of(meta).get("fun", "returns"))
+    fresh, cached = 111, 222
+    calls = []
+
+    class P:
+        pid = 1
+
+        @memoize_when_activated
+        def q(self):
+            calls.append(1)
+            if outcome == "raises":
+                raise psutil.AccessDenied(1)
+            return fresh
+
+    fun = P.q.__wrapped__
+    state = {"i": 0, "stored": None}
+
+    def nxt():
+        k = script[min(state["i"], len(script) - 1)]
+        state["i"] += 1
+        return k
+
+    def getter(self_):
+        k = nxt()
+        if k == "absent":
+            raise AttributeError("_cache")
+        if k == "empty":
+            return {}
+        return {fun: cached}
+
+    def setter(self_, v):
+        state["stored"] = v
+
+    def deleter(self_):
+        if nxt() == "absent":
+            raise AttributeError("_cache")
+
+    P._cache = property(getter, setter, deleter)
+    p = P()
+    try:
+        res, exc = p.q(), None
+    except Exception as e:  # noqa: BLE001
+        res, exc = None, e
+    ok = (exc is None and ((res == fresh and len(calls) == 1) or (res == cached and not calls))) or \
+         (isinstance(exc, psutil.AccessDenied) and outcome == "raises" and len(calls) == 1)
+    return {"env": {}, "result": res, "exc": exc, "verdict": not ok, "script": script,
+            "tag": None if ok else f"interference {script}: {'raised ' + repr(exc) if exc else 'returned ' + repr(res)}, "
+                                   f"{len(calls)} call(s) of the source"}
+
+
+@search("c16:race")
+def c16_race_search(meta, seed, budget):
+    import itertools
+    states = ("absent", "empty", "holding")
+    for ln in (1, 2, 3, 4):
+        for sc in itertools.product(states, repeat=ln):
+            for outcome in ("returns", "raises"):
+                yield {"script": list(sc), "outcome": outcome}
